@@ -9,7 +9,7 @@ if [ "${1:-}" = "--cleanup" ]; then git -C /repo worktree remove --force $WT 2>/
 d=$(readlink -f "$1")
 export CARGO_NET_OFFLINE=true
 if [ ! -d $WT ]; then git -C /repo worktree add --detach $WT HEAD -q || exit 2; fi
-cd $WT && git checkout -q --detach $(git -C /repo rev-parse HEAD) && git checkout -- . && git clean -fdq -e target
+cd $WT && git reset -q --hard $(git -C /repo rev-parse HEAD) && git clean -fdq -e target
 if ! git apply --3way "$d/patch.diff" >/dev/null 2>&1; then echo "RESULT $1 patch-does-not-apply"; exit 1; fi
 git reset -q
 suite=$(cargo test --workspace --no-fail-fast --offline 2>&1 | grep "test result" | head -1)
